@@ -60,6 +60,8 @@ type c07Env struct {
 	Granter bool   `json:"granter"`     // fee granter = wallet 1 (holds a real unlimited fee allowance for wallet 0)
 	Memo    bool   `json:"memo"`        // memo "x"
 	Timeout bool   `json:"timeout"`     // timeout height 5 (all blocks of a case are below it)
+	// MemoV (with Memo): another memo than "x": "sp" = " ", "nl" = "\n", "ws" = " \t \r\n ", "nul" = "\x00", "long" = 256 × "m"
+	MemoV string `json:"memo_v,omitempty"`
 	// TimeoutH (with Timeout): another timeout height than 5: "1" | "i63max" (2^63−1) | "2^63" | "2^63+1" | "u64max"
 	TimeoutH string `json:"timeout_h,omitempty"`
 	Fee     string `json:"fee"`         // eq | +1 | -1 | denom | extra (relative to the first top-level Ethereum msg) | cosmos (2e6 gas × base fee)
@@ -93,6 +95,9 @@ func (s c07Shape) String() string {
 	}
 	if e.TimeoutH != "" {
 		f = append(f, "timeout-height="+e.TimeoutH)
+	}
+	if e.MemoV != "" {
+		f = append(f, "memo-value="+e.MemoV)
 	}
 	f = append(f, "fee="+e.Fee, "gas="+e.Gas)
 	return "[" + strings.Join(s.Msgs, ",") + "] {" + strings.Join(f, " ") + "}"
@@ -337,6 +342,21 @@ func c07Build(cw *c07World, s c07Shape, seq uint64) []byte {
 	}
 	if s.Env.Memo {
 		body.Memo = "x"
+		switch s.Env.MemoV {
+		case "":
+		case "sp":
+			body.Memo = " "
+		case "nl":
+			body.Memo = "\n"
+		case "ws":
+			body.Memo = " \t \r\n "
+		case "nul":
+			body.Memo = "\x00"
+		case "long":
+			body.Memo = strings.Repeat("m", 256)
+		default:
+			panic("c07: memo_v " + s.Env.MemoV)
+		}
 	}
 	if s.Env.Timeout {
 		body.TimeoutHeight = 5
@@ -1036,6 +1056,14 @@ func c07Enumerate(thorough bool) c07Space {
 		}
 	}
 	nC := len(sp.Shapes) - n0
+	// D': memo values that a normalising comparison would treat as "no memo"
+	for _, l := range [][]string{{"E"}, {"E2"}} {
+		for _, m := range []string{"sp", "nl", "ws", "nul", "long"} {
+			e := c07EthCanon
+			e.Memo, e.MemoV = true, m
+			add(l, e)
+		}
+	}
 	// D: boundary values of the timeout height on the Ethereum envelope (the field is a uint64: values around 2^63 and 2^64)
 	for _, l := range [][]string{{"E"}, {"E2"}} {
 		for _, h := range []string{"1", "i63max", "2^63", "2^63+1", "u64max"} {
@@ -1054,7 +1082,7 @@ func c07Enumerate(thorough bool) c07Space {
 	}
 	sp.Rule = fmt.Sprintf("Each shape is hand-assembled as TxRaw/TxBody/AuthInfo protobuf and run on a fresh app through Simulate, CheckTx(New), [empty block], CheckTx(ReCheck) only if CheckTx accepted, FinalizeBlock+Commit; everything but the shape is valid (funded wallet 0, correct nonce/sequence, valid signature when one is present, real authz grant and fee allowance, proven vesting targets). "+
 		"Message atoms: E/E2=MsgEthereumTx carrying a legacy / dynamic-fee transfer, S=bank send, V1..V3=the three vesting-creation messages, G:t=MsgGrant of a GenericAuthorization for t∈{MsgEthereumTx,V1,V2,V3,MsgSend}, X<d>:m=m∈{E,V1,V2,V3,S} inside d nested MsgExec, XW<d>:m=the same with a bank send beside the next level at every level, and both forms around G:eth and G:V1 (lists of length ≤ 2 only); nesting depth d ≤ %d (single-message lists: d ≤ 5). "+
-		"A (%d shapes): [E] and [E2] × envelope factors ext{%s} × signature{0,1} × signer info{0,1} × fee payer{-,set} × fee granter{-,set} × memo{'','x'} × timeout height{0,5} (and, on the canonical envelope, 1, 2^63−1, 2^63, 2^63+1, 2^64−1) × fee{%s} × gas limit{%s} relative to the embedded tx — %s. "+
+		"A (%d shapes): [E] and [E2] × envelope factors ext{%s} × signature{0,1} × signer info{0,1} × fee payer{-,set} × fee granter{-,set} × memo{'','x'} (and, on the canonical envelope, ' ', '\\n', whitespace mix, NUL, 256 characters) × timeout height{0,5} (and, on the canonical envelope, 1, 2^63−1, 2^63, 2^63+1, 2^64−1) × fee{%s} × gas limit{%s} relative to the embedded tx — %s. "+
 		"B (%d shapes): all lists of length 1 and 2 over the %d atoms and all lists of length 3 over %s, each under the canonical Cosmos envelope (signed, signer info, 2e6 gas) and, when E is listed, also under the canonical Ethereum envelope. "+
 		"C (%d shapes): [E,S],[S,E],[E,E] × every single-factor deviation of the Ethereum envelope; [E],[E,S],[S,E],[X1:E],[X2:V1],[G:eth],[G:V1],[S],[X1:S] × Cosmos envelope with each extension-option level / payer / granter / memo / timeout. "+
 		"Oracle: reference predicate over the decoded protobuf, lane events of the delivered tx, full store hash (minus fee market) against an empty-block twin for every tx the predicate refuses.",
